@@ -33,7 +33,9 @@ def run_script(script, ctx, scale, extra_env=None, timeout=3000):
     return {"rc": r.returncode, "ncases": ncases, "nmis": nmis, "blocks": blocks, "tail": out[-3000:], "summary": m.group(0) if m else ""}
 
 
-def evaluate_with(script, prop_id, quick_scale=0.25, thorough_scale=1.0, extra_env=None):
+def evaluate_with(script, prop_id, quick_scale=0.25, thorough_scale=1.0, extra_env=None, concrete_kinds=()):
+    """concrete_kinds: MISMATCH block kinds in which the Lean side IS the property's reference (e.g. the reference rendering of
+    C19): there a difference between the real tool and the Lean result is a violation with the printed input as replay."""
     def evaluate(ctx, env, cases, with_model):
         scale = quick_scale if ctx.tier == "quick" else thorough_scale
         if not with_model:           # the search phase: a larger run at another seed
@@ -49,7 +51,12 @@ def evaluate_with(script, prop_id, quick_scale=0.25, thorough_scale=1.0, extra_e
         for b in res["blocks"]:
             probs = [l[2:] if l.startswith("- ") else l for l in b["lines"]]
             rec = {"op": b["name"], "c_out": "; ".join(probs)[:1500], "tags": [prop_id], "details": b["lines"][:12]}
-            if any(C_SIDE.match(p) for p in probs):
+            kind = b["name"].split()[0] if b["name"] else ""
+            if kind in concrete_kinds:
+                rec["why"] = "output of the real tool differs from the reference (%s): %s" % (kind, b["name"][:200])
+                rec["sig"] = "difftest:" + kind
+                conc.append(rec)
+            elif any(C_SIDE.match(p) for p in probs):
                 rec["why"] = "implementation result differs from the specification: " + "; ".join(p for p in probs if C_SIDE.match(p))[:300]
                 rec["sig"] = "difftest:" + re.sub(r"[^a-zA-Z]+", "-", probs[0])[:40]
                 conc.append(rec)
